@@ -106,12 +106,14 @@ def run(chk):
             ok = norm(v.values[0]) == f"{tgt}.votes" and norm(v.values[1]) == f"{c}.votes"
         elif isinstance(v, ast.BinOp) and isinstance(v.op, ast.BitOr):
             ok = norm(v.left) == f"{tgt}.votes" and norm(v.right) == f"{c}.votes"
-    upd = [x for x in ast.walk(mb) if isinstance(x, ast.Call) and norm(x.func) == f"{tgt}.votes.update"]
-    if not vs and len(upd) == 1:
-        ok = norm(upd[0].args[0]) == f"{c}.votes"
-    chk.ob("C18.R2", where, "union-later-wins", ok,
-           "the merged votes are {**earlier.votes, **later.votes}: union of contests, the later record winning within a contest",
-           node=vs[0][2] if vs else l)
+    # an in-place `.votes.update(..)` / `.votes[k] = ..` would write into the first record's dict object, which other records of
+    # the input may share (a ballot-style template, the constructor's mutable default): the union must be a new dict
+    inplace = [norm(x)[:70] for x in ast.walk(mb) if isinstance(x, ast.Call) and isinstance(x.func, ast.Attribute)
+               and x.func.attr in ("update", "setdefault", "pop", "clear", "popitem") and norm(x.func.value).endswith(".votes")]
+    inplace += [norm(s0)[:70] for t, v0, s0 in stores(mb) if isinstance(t, ast.Subscript) and norm(t.value).endswith(".votes")]
+    chk.ob("C18.R2", where, "union-later-wins", ok and not inplace,
+           "the merged votes are the new dict {**earlier.votes, **later.votes}: union of contests, the later record winning within a "
+           "contest, no input dict written in place", node=vs[0][2] if vs else l, in_place_writes=inplace)
     # R3 flags
     for flag, op, opname in (("phantom", ast.And, "and"), ("pool", ast.Or, "or")):
         fs = [(t, v, s) for t, v, s in stores(mb) if isinstance(t, ast.Attribute) and t.attr == flag and norm(t.value) == tgt]
